@@ -239,6 +239,16 @@ def run(tier):
             if json.dumps(substitute(a1, {}), sort_keys=True) != json.dumps(substitute(a2, {}), sort_keys=True):
                 pass  # different ASTs with equal text can only differ in rendering-only fields; checked below by the parser anyway
         seen[t["text"]] = key
+    # ends of input the layout pool cannot express: a comment that runs to the end of the text, no final line break, trailing
+    # blanks (the AST and every location stay the same)
+    extra = []
+    for t in texts:
+        if t["variant"][0] != "canonical":
+            continue
+        body = t["text"].rstrip("\n \t")
+        for j, tail in enumerate(["", " ", "\n\n\t", " ; the end", "\n; é last comment, no line break", "\n;", " ;\n;"]):
+            extra.append(dict(t, variant=["eof", j, 0], text=body + tail))
+    texts = texts + extra
     tin, tout = os.path.join(d, "texts.ndjson"), os.path.join(d, "parsed.ndjson")
     C.write_ndjson(tin, [{"id": t["id"], "variant": t["variant"], "text": t["text"]} for t in texts])
     p = subprocess.run([C.TSGV, "parse", tin, tout], stdout=subprocess.PIPE, stderr=subprocess.DEVNULL, text=True, timeout=3400)
